@@ -514,8 +514,10 @@ func (p *connectedPlayer) nextServerToTry(current RegisteredServer) RegisteredSe
 		}
 	}
 
+	// Server names are case-insensitive (see Proxy.Server): the listed name may be spelled
+	// differently than the name the server was registered with.
 	sameName := func(rs RegisteredServer, name string) bool {
-		return rs.ServerInfo().Name() == name
+		return strings.EqualFold(rs.ServerInfo().Name(), name)
 	}
 
 	for i := p.tryIndex; i < len(p.serversToTry); i++ {
